@@ -162,6 +162,9 @@ func emphRefHTML(s string) string {
 		case c == '\\' && i+1 < len(s) && emIsPunct(s[i+1]):
 			r.add(&emNode{kind: 0, text: s[i+1 : i+2]}) // a separate node: never merged into a delimiter run
 			i += 2
+		case c == '&' && strings.HasPrefix(s[i:], "&amp;"):
+			r.add(&emNode{kind: 0, text: "&"}) // a character reference: its own node, a literal ampersand
+			i += 5
 		case c == '`':
 			j := i
 			for j < len(s) && s[j] == '`' {
@@ -281,7 +284,7 @@ func emphRefHTML(s string) string {
 	plain = func(n *emNode) {
 		switch n.kind {
 		case 0, 4, 5:
-			b.WriteString(n.text)
+			b.WriteString(strings.ReplaceAll(n.text, "&", "&amp;"))
 		case 1:
 			b.WriteString(strings.Repeat(string(n.ch), n.n))
 		default:
@@ -293,7 +296,7 @@ func emphRefHTML(s string) string {
 	render = func(n *emNode) {
 		switch n.kind {
 		case 0, 5:
-			b.WriteString(n.text)
+			b.WriteString(strings.ReplaceAll(n.text, "&", "&amp;"))
 		case 1:
 			b.WriteString(strings.Repeat(string(n.ch), n.n))
 		case 2, 3:
@@ -307,7 +310,7 @@ func emphRefHTML(s string) string {
 			}
 			b.WriteString("</" + tag + ">")
 		case 4:
-			b.WriteString("<code>" + n.text + "</code>")
+			b.WriteString("<code>" + strings.ReplaceAll(n.text, "&", "&amp;") + "</code>")
 		case 6:
 			b.WriteString("<a href=\"" + n.dest + "\">")
 			for _, k := range n.kids {
@@ -334,7 +337,7 @@ func emphPlain(s string) bool {
 	for i := 0; i < len(s); i++ {
 		c := s[i]
 		switch {
-		case c >= 'a' && c <= 'z' || c >= 'A' && c <= 'Z' || c >= '0' && c <= '9' || c == ' ' || c == '.' || c == '!' || c == '*' || c == '_' || c == '[' || c == ']' || c == '`' || c == '\\':
+		case c >= 'a' && c <= 'z' || c >= 'A' && c <= 'Z' || c >= '0' && c <= '9' || c == ' ' || c == '.' || c == '!' || c == '*' || c == '_' || c == '[' || c == ']' || c == '`' || c == '\\' || c == '&' || c == ';':
 		case c == '(' && i > 0 && s[i-1] == ']':
 			_, n := inlineDest(s[i:])
 			if n == 0 {
